@@ -15,6 +15,7 @@ import warnings
 from .. import core
 from ..core import cz, clist, cfloat, cbool
 from ..runner import Entry, differential
+from . import c14_translate
 
 PRE = ("From Coq Require Import PrimFloat QArith.\nFrom EsVerif.Common Require Import Base.\n"
        "From EsVerif.C05 Require Import Model.\nFrom EsVerif.C14 Require Import Model Spec Exec.\n"
@@ -552,6 +553,9 @@ TRUSTED = [
     "semantics in _merge_last, float -> int64 conversion",
     "nperbin: the bin number np.int64(i/float(nperbin)) is modelled as the integer quotient; a monitor evaluates C05's "
     "bit-exact binary64 bin number against it for every (n, nperbin) explored",
+    "translator harness/props/c14_translate.py (python ast, fail-closed): re-reads on every run what each key is assigned in "
+    "the single-member and several-member branches of the statistics loop and the constants -9999.0 / 0 / 0.5, compared in "
+    "Coq with the tables of Model.v, which Proofs.tables_are_the_model ties to the model",
     "python harness (harness/props/C14.py): drivers, key names of the result dictionary, hex-float printer; coqc "
     "evaluating Exec.v verdict terms",
 ]
@@ -572,6 +576,26 @@ def run(ctx, replay=None):
     def sized(workdir, preamble, terms, ty="Z", shard=400, **kw):
         return orig(workdir, preamble, terms, ty=ty, shard=min(shard, max(8, min(100, -(-len(terms) // core.NCPU)))), **kw)
     core.coq_eval = sized
+    # tie to the source: the assignment tables and constants of Binner.calc_stats, re-read from the tree under check
+    if replay is None:
+        what = ("tie: tables/constants of Binner.calc_stats read from esutil/stat/util.py (python ast) = those of "
+                "C14/Model.v (single-member and several-member branch, sentinel, whist init, centre factor)")
+        try:
+            tabs = c14_translate.read(ctx.impl)
+            vals = core.coq_eval(ctx.work + "/tie", PRE, [c14_translate.coq_term(tabs)], tag="tie", shard=1)
+            ok = vals[0].strip("() ").replace("%Z", "") == "0"
+            ctx.obligation(what, ok, "" if ok else str(tabs))
+            if not ok:
+                ctx.violation("the statistics loop of esutil/stat/util.py no longer assigns what the model says (tables read "
+                              "from the source differ from C14/Model.v)",
+                              {"kind": "translation", "tables": tabs,
+                               "no_longer_checks": "tie of C14.Model.{single,many}_*_table / sentinel / center_factor to util.py "
+                                                   "(Proofs.tables_are_the_model)"}, found_input=False)
+        except (c14_translate.TranslateError, core.CoqEvalError) as e:
+            ctx.obligation(what, False, str(e)[-600:])
+            ctx.violation("esutil/stat/util.py: Binner.calc_stats could not be read by the fail-closed translator: %s" % str(e)[:300],
+                          {"kind": "translation", "error": str(e)[-1500:],
+                           "no_longer_checks": "tie of C14.Model tables to util.py"}, found_input=False)
     differential(ctx, PRE, ENTRIES, replay)
     ent = ENTRIES[1]
     if ent.monitors:
